@@ -265,6 +265,15 @@ macro_rules! apply {
 	(@scheme false, $buf:ident, $s:ident) => { $buf.set_scheme($s) };
 }
 
+fn with_spare(bytes: &[u8]) -> Vec<u8> {
+	use std::sync::atomic::{AtomicUsize, Ordering};
+	static TURN: AtomicUsize = AtomicUsize::new(0);
+	let spare = [0usize, 1, 7, 64, 4096][TURN.fetch_add(1, Ordering::Relaxed) % 5];
+	let mut v = Vec::with_capacity(bytes.len() + spare);
+	v.extend_from_slice(bytes);
+	v
+}
+
 /// C04 "however obtained": the buffer a step works on is parsed, or converted from the other
 /// family / from the reference or full type, or built by `default()` / `from_scheme`.
 /// Returns the buffer and the name of the route; None when the route does not apply to `pre`.
@@ -291,10 +300,12 @@ macro_rules! obtain {
 	(@full_ty iri) => { iref::iri::IriBuf };
 	(@ref_ty uri) => { iref::uri::UriRefBuf };
 	(@ref_ty iri) => { iref::iri::IriRefBuf };
-	(@new_full uri, $pre:expr) => { iref::uri::UriBuf::new($pre.as_bytes().to_vec()).ok() };
-	(@new_full iri, $pre:expr) => { iref::iri::IriBuf::new($pre.to_string()).ok() };
-	(@ref_buf uri, $pre:expr) => { iref::uri::UriRefBuf::new($pre.as_bytes().to_vec()).ok() };
-	(@ref_buf iri, $pre:expr) => { iref::iri::IriRefBuf::new($pre.to_string()).ok() };
+	// (the vector / string handed to the constructor has spare capacity of 0, 1, 7, 64 or 4096 bytes in turn:
+	// nothing may depend on it)
+	(@new_full uri, $pre:expr) => { iref::uri::UriBuf::new(with_spare($pre.as_bytes())).ok() };
+	(@new_full iri, $pre:expr) => { iref::iri::IriBuf::new(String::from_utf8(with_spare($pre.as_bytes())).unwrap()).ok() };
+	(@ref_buf uri, $pre:expr) => { iref::uri::UriRefBuf::new(with_spare($pre.as_bytes())).ok() };
+	(@ref_buf iri, $pre:expr) => { iref::iri::IriRefBuf::new(String::from_utf8(with_spare($pre.as_bytes())).unwrap()).ok() };
 	(@try_full uri, $b:expr) => { $b.try_into_uri().ok() };
 	(@try_full iri, $b:expr) => { $b.try_into_iri().ok() };
 	(@into_ref uri, $b:expr) => { $b.into_uri_ref() };
